@@ -72,9 +72,9 @@ PROPS = {
                 technique='the union of the exact (<=>) postconditions and transcript-script postconditions along the verified call chain of StarkProof::verify',
                 note='Not decided: the literal per-mutant claim "the mutant is rejected" needs (i) hash collision resistance (idealised as injectivity, Merkle binding lemmas not mechanised in this session) and (ii) "a changed challenge leads to rejection except with negligible probability" (probabilistic). Unused trailing vector elements are tolerated, as the statement allows.'),
     'C04': dict(quick=['core'], thorough=['core'],
-                claim='vector_commitment_decommit is proved to succeed exactly when the work-list walk of the statement (spec function root_spec: siblings merged when adjacent, otherwise one authentication node consumed, parents appended, hash chosen by depth vs friendly-layer count, masked hash = low 160/248 bits of H(be32(x)||be32(y))) yields the committed root; missing node <=> Err.',
-                technique='functional postconditions (code == spec walk) on vector_commitment_decommit, compute_root_from_queries (with termination measure), hash_friendly_unfriendly',
-                note='Completeness/binding of the walk against an independent Merkle tree oracle for all shapes: see evidence (lemma status).'),
+                claim='vector_commitment_decommit is proved to succeed exactly when the work-list walk of the statement (spec function root_spec: siblings merged when adjacent, otherwise one authentication node consumed, parents appended, hash chosen by depth vs friendly-layer count, masked hash = low 160/248 bits of H(be32(x)||be32(y))) yields the committed root; missing node <=> Err. Machine-checked lemmas about that walk: COMPLETENESS (pending entries that are nodes of any hash tree obeying the friendly-layer rule + that tree\'s sibling nodes as authentication values ==> the walk yields the tree\'s root) and BINDING (two well-formed openings of the same positions with the same root have the same queried values and the same authentication nodes, under the explicit hypothesis that the node hash is collision free). All four hash variants are checked on every run.',
+                technique='functional postconditions (code == spec walk) on vector_commitment_decommit, compute_root_from_queries (with termination measure), hash_friendly_unfriendly; verified lemmas lemma_complete, lemma_binding with non-vacuity checks (templates/commitment/vector_merkle_lemmas.rs)',
+                note='Not mechanised: that the walk over a sorted set of distinct in-range leaf indices reads every entry (the well-formedness hypothesis reads_all of the binding lemma), and collision freeness of the truncated hashes (idealisation).'),
     'C05': dict(quick=['core'], thorough=['core'],
                 claim='table_decommit is proved to succeed exactly when the column count fits u32, cells = columns x queries, and the vector decommitment of the row leaves (Montgomery cells; single column unhashed; poseidon_many or masked digest of concatenated be32 cells chosen by the depth height+1 friendly rule) succeeds.',
                 technique='exact (<=>) postcondition on table_decommit, functional postcondition + loop invariant on generate_vector_queries',
